@@ -17,6 +17,9 @@ Definition mem (x : nat) (l : list nat) : bool := existsb (Nat.eqb x) l.
 Definition adj_of (edges : list (nat * nat)) (u v : nat) : bool :=
   existsb (fun e => ((fst e =? u) && (snd e =? v)) || ((fst e =? v) && (snd e =? u))) edges.
 
+(* the same graph with its self-loops ignored *)
+Definition noloop (adj : nat -> nat -> bool) (u v : nat) : bool := adj u v && negb (u =? v).
+
 Section Graph.
 Variable adj : nat -> nat -> bool.
 Variable nodes : list nat.
